@@ -772,4 +772,422 @@ theorem parse_write_all (F : ExtFloat) :
       · have : ¬ (max (depthOf v) (depthOfEntries es) < d) := by omega
         simp [h1, this]
 
+/-! ## The UTF-8 well-formedness automaton -/
+
+theorem u8run_append (s : U8) (a b : List Nat) : u8run s (a ++ b) = u8run (u8run s a) b := by
+  simp [u8run, List.foldl_append]
+
+theorem u8run_cons (s : U8) (b : Nat) (l : List Nat) : u8run s (b :: l) = u8run (u8step s b) l := rfl
+
+theorem u8run_nil (s : U8) : u8run s [] = s := rfl
+
+theorem u8run_rej (l : List Nat) : u8run .rej l = .rej := by
+  induction l with
+  | nil => rfl
+  | cons b l ih => rw [u8run_cons]; simpa [u8step] using ih
+
+/-- A byte that cannot continue a multi-byte sequence. -/
+def nonCont (b : Nat) : Bool := b < 0x80 || 0xC0 ≤ b
+
+theorem u8step_nonCont (s : U8) (b : Nat) (hs : s ≠ .acc) (hb : nonCont b = true) :
+    u8step s b = .rej := by
+  simp [nonCont] at hb
+  cases s <;> simp [u8step, isCont] at hs ⊢ <;> omega
+
+theorem u8run_ascii (l : List Nat) (h : ∀ b ∈ l, b < 0x80) : u8run .acc l = .acc := by
+  induction l with
+  | nil => rfl
+  | cons b l ih =>
+    have hb := h b (by simp)
+    rw [u8run_cons]
+    simp only [u8step, hb, if_true]
+    exact ih (fun x hx => h x (by simp [hx]))
+
+theorem u8run_utf8 (c : Nat) (h : isScalar c = true) : u8run .acc (utf8 c) = .acc := by
+  simp only [isScalar, Bool.or_eq_true, Bool.and_eq_true, decide_eq_true_eq] at h
+  unfold utf8
+  split
+  · rename_i h1; simp [u8run, u8step, h1]
+  · split
+    · rename_i h1 h2
+      have e1 : u8step .acc (0xC0 + c / 64) = .c1 := by
+        simp only [u8step]; rw [if_neg (by omega), if_pos (by omega)]
+      have e2 : u8step .c1 (0x80 + c % 64) = .acc := by
+        have hc : isCont (0x80 + c % 64) = true := by simp [isCont]; omega
+        simp [u8step, hc]
+      simp [u8run, e1, e2]
+    · split
+      · rename_i h1 h2 h3
+        have hc : isCont (0x80 + c % 64) = true := by simp [isCont]; omega
+        have e3 : u8step .c1 (0x80 + c % 64) = .acc := by simp [u8step, hc]
+        by_cases ha : c / 4096 = 0
+        · have e1 : u8step .acc (0xE0 + c / 4096) = .e0 := by simp [u8step, ha]
+          have e2 : u8step .e0 (0x80 + c / 64 % 64) = .c1 := by
+            simp only [u8step]; rw [if_pos (by omega)]
+          simp [u8run, e1, e2, e3]
+        · by_cases hb : c / 4096 = 13
+          · have e1 : u8step .acc (0xE0 + c / 4096) = .ed := by simp [u8step, hb]
+            have e2 : u8step .ed (0x80 + c / 64 % 64) = .c1 := by
+              simp only [u8step]; rw [if_pos (by omega)]
+            simp [u8run, e1, e2, e3]
+          · have e1 : u8step .acc (0xE0 + c / 4096) = .c2 := by
+              simp only [u8step]
+              rw [if_neg (by omega), if_neg (by omega), if_neg (by omega), if_neg (by omega), if_pos (by omega)]
+            have e2 : u8step .c2 (0x80 + c / 64 % 64) = .c1 := by
+              have hc' : isCont (0x80 + c / 64 % 64) = true := by simp [isCont]; omega
+              simp [u8step, hc']
+            simp [u8run, e1, e2, e3]
+      · rename_i h1 h2 h3
+        have hc : isCont (0x80 + c % 64) = true := by simp [isCont]; omega
+        have hc2 : isCont (0x80 + c / 64 % 64) = true := by simp [isCont]; omega
+        have e4 : u8step .c1 (0x80 + c % 64) = .acc := by simp [u8step, hc]
+        have e3 : u8step .c2 (0x80 + c / 64 % 64) = .c1 := by simp [u8step, hc2]
+        by_cases ha : c / 262144 = 0
+        · have e1 : u8step .acc (0xF0 + c / 262144) = .f0 := by simp [u8step, ha]
+          have e2 : u8step .f0 (0x80 + c / 4096 % 64) = .c2 := by
+            simp only [u8step]; rw [if_pos (by omega)]
+          simp [u8run, e1, e2, e3, e4]
+        · by_cases hb : c / 262144 = 4
+          · have e1 : u8step .acc (0xF0 + c / 262144) = .f4 := by simp [u8step, hb]
+            have e2 : u8step .f4 (0x80 + c / 4096 % 64) = .c2 := by
+              simp only [u8step]; rw [if_pos (by omega)]
+            simp [u8run, e1, e2, e3, e4]
+          · have e1 : u8step .acc (0xF0 + c / 262144) = .c3 := by
+              simp only [u8step]
+              rw [if_neg (by omega), if_neg (by omega), if_neg (by omega), if_neg (by omega),
+                if_neg (by omega), if_neg (by omega), if_neg (by omega), if_pos (by omega)]
+            have e2 : u8step .c3 (0x80 + c / 4096 % 64) = .c2 := by
+              have hc' : isCont (0x80 + c / 4096 % 64) = true := by simp [isCont]; omega
+              simp [u8step, hc']
+            simp [u8run, e1, e2, e3, e4]
+
+/-- `a` and `b` well-formed ⇒ `a ++ b` well-formed. -/
+theorem u8_append {a b : List Nat} (ha : u8run .acc a = .acc) (hb : u8run .acc b = .acc) :
+    u8run .acc (a ++ b) = .acc := by
+  rw [u8run_append, ha, hb]
+
+/-- `b` is empty or starts at a character boundary. -/
+def startsOk : List Nat → Bool
+  | [] => true
+  | b :: _ => nonCont b
+
+/-- `a ++ b` well-formed and `b` starts at a character boundary ⇒ both are
+well-formed. -/
+theorem u8_split {a b : List Nat} (h : u8run .acc (a ++ b) = .acc) (hb : startsOk b = true) :
+    u8run .acc a = .acc ∧ u8run .acc b = .acc := by
+  rw [u8run_append] at h
+  cases b with
+  | nil => simp [u8run_nil] at h; exact ⟨h, rfl⟩
+  | cons x t =>
+    simp only [startsOk] at hb
+    by_cases hs : u8run .acc a = .acc
+    · rw [hs] at h; exact ⟨hs, h⟩
+    · rw [u8run_cons, u8step_nonCont _ _ hs hb, u8run_rej] at h
+      cases h
+
+
+theorem map_some_rest {α β} {f : α → β} {o : Option α} {y : β} (h : o.map f = some y) : ∃ x, o = some x := by
+  cases o with
+  | none => simp at h
+  | some x => exact ⟨x, rfl⟩
+
+theorem utf8Decode_some_valid : ∀ (l cps : List Nat), utf8Decode l = some cps → u8run .acc l = .acc := by
+  intro l
+  fun_induction utf8Decode l <;> intro cps h
+  case case1 => rfl
+  case case2 b0 rest h1 ih =>
+    obtain ⟨x, hx⟩ := map_some_rest h
+    rw [u8run_cons]; simp only [u8step, h1, if_true]; exact ih x hx
+  case case3 b0 h1 h2 b1 rest h3 ih =>
+    obtain ⟨x, hx⟩ := map_some_rest h
+    have e1 : u8step .acc b0 = .c1 := by simp only [u8step]; rw [if_neg h1, if_pos h2]
+    have e2 : u8step .c1 b1 = .acc := by simp [u8step, h3]
+    rw [u8run_cons, e1, u8run_cons, e2]; exact ih x hx
+  case case6 b0 h1 h2 h3 b1 b2 rest h4 ih =>
+    obtain ⟨x, hx⟩ := map_some_rest h
+    obtain ⟨h4a, h4b, h4c⟩ := h4
+    have e3 : u8step .c1 b2 = .acc := by simp [u8step, h4c]
+    rw [u8run_cons, u8run_cons, u8run_cons]
+    by_cases ha : b0 = 0xE0
+    · subst ha
+      simp at h4a h4b
+      have e1 : u8step .acc 0xE0 = .e0 := by simp [u8step]
+      have e2 : u8step .e0 b1 = .c1 := by simp only [u8step]; rw [if_pos (by omega)]
+      rw [e1, e2, e3]; exact ih x hx
+    · by_cases hb : b0 = 0xED
+      · subst hb
+        simp at h4a h4b
+        have e1 : u8step .acc 0xED = .ed := by simp [u8step]
+        have e2 : u8step .ed b1 = .c1 := by simp only [u8step]; rw [if_pos (by omega)]
+        rw [e1, e2, e3]; exact ih x hx
+      · simp only [ha, hb, if_false] at h4a h4b
+        have e1 : u8step .acc b0 = .c2 := by
+          simp only [u8step]
+          rw [if_neg h1, if_neg h2, if_neg ha, if_neg hb, if_pos (by omega)]
+        have hc : isCont b1 = true := by simp [isCont]; omega
+        have e2 : u8step .c2 b1 = .c1 := by simp [u8step, hc]
+        rw [e1, e2, e3]; exact ih x hx
+  case case9 b0 h1 h2 h3 h4 b1 b2 b3 rest h5 ih =>
+    obtain ⟨x, hx⟩ := map_some_rest h
+    obtain ⟨h5a, h5b, h5c, h5d⟩ := h5
+    have e4 : u8step .c1 b3 = .acc := by simp [u8step, h5d]
+    have e3 : u8step .c2 b2 = .c1 := by simp [u8step, h5c]
+    rw [u8run_cons, u8run_cons, u8run_cons, u8run_cons]
+    by_cases ha : b0 = 0xF0
+    · subst ha
+      simp at h5a h5b
+      have e1 : u8step .acc 0xF0 = .f0 := by simp [u8step]
+      have e2 : u8step .f0 b1 = .c2 := by simp only [u8step]; rw [if_pos (by omega)]
+      rw [e1, e2, e3, e4]; exact ih x hx
+    · by_cases hb : b0 = 0xF4
+      · subst hb
+        simp at h5a h5b
+        have e1 : u8step .acc 0xF4 = .f4 := by simp [u8step]
+        have e2 : u8step .f4 b1 = .c2 := by simp only [u8step]; rw [if_pos (by omega)]
+        rw [e1, e2, e3, e4]; exact ih x hx
+      · simp only [ha, hb, if_false] at h5a h5b
+        have e1 : u8step .acc b0 = .c3 := by
+          simp only [u8step]
+          rw [if_neg h1, if_neg h2, if_neg (by omega), if_neg (by omega), if_neg (by omega), if_neg ha, if_neg hb,
+            if_pos (by omega)]
+        have hc : isCont b1 = true := by simp [isCont]; omega
+        have e2 : u8step .c3 b1 = .c2 := by simp [u8step, hc]
+        rw [e1, e2, e3, e4]; exact ih x hx
+  all_goals simp at h
+
+/-! Writer output is well-formed UTF-8. -/
+
+theorem hexLower_lt (n : Nat) (h : n < 16) : hexLower n < 0x80 := by
+  unfold hexLower; split <;> omega
+
+theorem u8run_writeCp (c : Nat) (h : isScalar c = true) : u8run .acc (writeCp c) = .acc := by
+  unfold writeCp
+  repeat' split
+  all_goals first
+    | exact u8run_utf8 c h
+    | (apply u8run_ascii; intro b hb; simp at hb; omega)
+    | skip
+  · rename_i hlt
+    apply u8run_ascii; intro b hb; simp at hb
+    have := hexLower_lt (c / 16) (by omega)
+    have := hexLower_lt (c % 16) (by omega)
+    omega
+
+theorem u8run_writeStr (cps : List Nat) (h : allScalars cps = true) : u8run .acc (writeStr cps) = .acc := by
+  have hbody : u8run .acc (cps.flatMap writeCp) = .acc := by
+    induction cps with
+    | nil => rfl
+    | cons c cps ih =>
+      simp only [allScalars, List.all_cons, Bool.and_eq_true] at h
+      rw [List.flatMap_cons]
+      exact u8_append (u8run_writeCp c h.1) (ih (by simpa [allScalars] using h.2))
+  unfold writeStr
+  rw [show 0x22 :: cps.flatMap writeCp ++ [0x22] = [0x22] ++ (cps.flatMap writeCp ++ [0x22]) by simp]
+  exact u8_append (by decide) (u8_append hbody (by decide))
+
+theorem u8run_intDec (i : Int) : u8run .acc (intDec i) = .acc := by
+  apply u8run_ascii
+  intro b hb
+  unfold intDec at hb
+  split at hb
+  · simp at hb
+    rcases hb with hb | hb
+    · omega
+    · have := natDec_digits _ _ hb; omega
+  · have := natDec_digits _ _ hb; omega
+
+theorem write_valid_all (F : ExtFloat) :
+    (∀ v, wellFormed v = true → u8run .acc (write F v) = .acc) ∧
+    (∀ first es, wellFormedEntries es = true → u8run .acc (writeEntries F first es) = .acc) ∧
+    (∀ first xs, wellFormedList xs = true → u8run .acc (writeElems F first xs) = .acc) := by
+  apply write.mutual_induct
+    (motive_1 := fun v => wellFormed v = true → u8run .acc (write F v) = .acc)
+    (motive_2 := fun first es => wellFormedEntries es = true → u8run .acc (writeEntries F first es) = .acc)
+    (motive_3 := fun first xs => wellFormedList xs = true → u8run .acc (writeElems F first xs) = .acc)
+  · intro _; simp only [write]; decide
+  · intro _; simp only [write]; decide
+  · intro _; simp only [write]; decide
+  · intro i _; exact u8run_intDec i
+  · intro src h; simp [wellFormed] at h
+  · intro cps h; exact u8run_writeStr cps (by simpa [wellFormed] using h)
+  · intro xs ih h
+    simp only [wellFormed] at h
+    rw [write, show 0x5B :: writeElems F true xs ++ [0x5D] = [0x5B] ++ (writeElems F true xs ++ [0x5D]) by simp]
+    exact u8_append (by decide) (u8_append (ih h) (by decide))
+  · intro es ih h
+    simp only [wellFormed] at h
+    rw [write, show 0x7B :: writeEntries F true es ++ [0x7D] = [0x7B] ++ (writeEntries F true es ++ [0x7D]) by simp]
+    exact u8_append (by decide) (u8_append (ih h) (by decide))
+  · intro first _; rfl
+  · intro first x xs ih1 ih2 h
+    simp only [wellFormedList, Bool.and_eq_true] at h
+    rw [writeElems]
+    refine u8_append (u8_append ?_ (ih1 h.1)) (ih2 h.2)
+    cases first <;> decide
+  · intro first _; rfl
+  · intro first k v es ih1 ih2 h
+    simp only [wellFormedEntries, Bool.and_eq_true] at h
+    rw [writeEntries]
+    rw [show (if first = true then [] else [0x2C]) ++ writeStr k ++ 0x3A :: write F v ++ writeEntries F false es
+      = ((if first = true then [] else [0x2C]) ++ writeStr k) ++ ([0x3A] ++ (write F v ++ writeEntries F false es)) by simp]
+    refine u8_append (u8_append ?_ (u8run_writeStr k h.1.1)) (u8_append (by decide) (u8_append (ih1 h.1.2) (ih2 h.2)))
+    cases first <;> decide
+
+
+/-! ## The document loops -/
+
+theorem parseValue_length {d : Nat} {bs rest : List Nat} {v : JVal}
+    (h : parseValue d bs = .ok (v, rest)) : rest.length < bs.length := by
+  unfold parseValue at h
+  split at h
+  · simp at h
+  · rename_i v' r heq
+    simp at h; obtain ⟨_, rfl⟩ := h; exact r.property
+
+theorem skipWs_ws_cons (b : Nat) (l : List Nat) (h : isWs b = true) : skipWs (b :: l) = skipWs l := by
+  simp [skipWs, h]
+
+theorem skipWs_append (ws l : List Nat) (h : ∀ b ∈ ws, isWs b = true) : skipWs (ws ++ l) = skipWs l := by
+  induction ws with
+  | nil => rfl
+  | cons b ws ih =>
+    rw [List.cons_append, skipWs_ws_cons _ _ (h b (by simp))]
+    exact ih (fun x hx => h x (by simp [hx]))
+
+/-- Leading whitespace is invisible to the value parser … -/
+theorem parseValue_ws (d : Nat) (ws l : List Nat) (h : ∀ b ∈ ws, isWs b = true) :
+    parseValue d (ws ++ l) = parseValue d l := by
+  rw [parseValue_eq, parseValue_eq, skipWs_append ws l h]
+
+theorem parseElems_ws (d : Nat) (first : Bool) (ws l : List Nat) (h : ∀ b ∈ ws, isWs b = true) :
+    parseElems d first (ws ++ l) = parseElems d first l := by
+  rw [parseElems_eq, parseElems_eq, skipWs_append ws l h]
+
+theorem parseEntries_ws (d : Nat) (first : Bool) (ws l : List Nat) (h : ∀ b ∈ ws, isWs b = true) :
+    parseEntries d first (ws ++ l) = parseEntries d first l := by
+  rw [parseEntries_eq, parseEntries_eq, skipWs_append ws l h]
+
+/-- … and to both document loops. -/
+theorem readerLoop_ws (ws l : List Nat) (h : ∀ b ∈ ws, isWs b = true) :
+    readerLoop (ws ++ l) = readerLoop l := by
+  rw [readerLoop_eq, readerLoop_eq l, skipWs_append ws l h]
+
+theorem sliceDocs_ws (ws l : List Nat) (h : ∀ b ∈ ws, isWs b = true) :
+    sliceDocs (ws ++ l) = sliceDocs l := by
+  rw [sliceDocs_eq, sliceDocs_eq l, skipWs_append ws l h]
+
+/-- One written document followed by a newline, then anything: both loops take
+the document (or stop at the depth limit) and go on with the rest. -/
+theorem readerLoop_write (F : ExtFloat) (v : JVal) (l : List Nat) (hwf : wellFormed v = true) :
+    readerLoop (write F v ++ 0x0A :: l) =
+      if depthOf v < depthLimit then (v :: (readerLoop l).1, (readerLoop l).2)
+      else ([], .err .recursionLimit) := by
+  obtain ⟨b, t, hb, hws, _⟩ := write_head F v hwf
+  have hp := (parse_write_all F).1 v hwf depthLimit (0x0A :: l) (by decide) (by simp [numEnd, isDigit])
+  rw [readerLoop_eq]
+  rw [hb] at hp ⊢
+  simp only [List.cons_append] at hp ⊢
+  rw [skipWs_cons _ hws]
+  have hnl : readerLoop (0x0A :: l) = readerLoop l := readerLoop_ws [0x0A] l (by simp [isWs])
+  by_cases hdp : depthOf v < depthLimit
+  · simp only [hp, expectV, hdp, if_true, hnl]
+  · simp only [hp, expectV, hdp, if_false]
+
+theorem sliceDocs_write (F : ExtFloat) (v : JVal) (l : List Nat) (hwf : wellFormed v = true) :
+    sliceDocs (write F v ++ 0x0A :: l) =
+      if depthOf v < depthLimit then (v :: (sliceDocs l).1, (sliceDocs l).2)
+      else ([], .err .recursionLimit) := by
+  obtain ⟨b, t, hb, hws, _⟩ := write_head F v hwf
+  have hp := (parse_write_all F).1 v hwf depthLimit (0x0A :: l) (by decide) (by simp [numEnd, isDigit])
+  rw [sliceDocs_eq]
+  rw [hb] at hp ⊢
+  simp only [List.cons_append] at hp ⊢
+  rw [skipWs_cons _ hws]
+  have hnl : sliceDocs (0x0A :: l) = sliceDocs l := sliceDocs_ws [0x0A] l (by simp [isWs])
+  by_cases hdp : depthOf v < depthLimit
+  · simp [hp, expectV, hdp, hnl, endOk, isWs]
+  · simp only [hp, expectV, hdp, if_false]
+
+
+/-- Every document is float-free, well-formed and within the depth limit. -/
+def docsOk (docs : List JVal) : Prop := ∀ d ∈ docs, wellFormed d = true ∧ depthOf d < depthLimit
+
+theorem readerLoop_writeDocs (F : ExtFloat) (docs : List JVal) (h : docsOk docs) :
+    readerLoop (writeDocs F docs) = (docs, .ok) := by
+  induction docs with
+  | nil => rw [readerLoop_eq]; simp [writeDocs, skipWs]
+  | cons d ds ih =>
+    have hd := h d (by simp)
+    rw [writeDocs, readerLoop_write F d _ hd.1, if_pos hd.2, ih (fun x hx => h x (by simp [hx]))]
+
+theorem sliceDocs_writeDocs (F : ExtFloat) (docs : List JVal) (h : docsOk docs) :
+    sliceDocs (writeDocs F docs) = (docs, .ok) := by
+  induction docs with
+  | nil => rw [sliceDocs_eq]; simp [writeDocs, skipWs]
+  | cons d ds ih =>
+    have hd := h d (by simp)
+    rw [writeDocs, sliceDocs_write F d _ hd.1, if_pos hd.2, ih (fun x hx => h x (by simp [hx]))]
+
+theorem writeDocs_valid (F : ExtFloat) (docs : List JVal) (h : ∀ d ∈ docs, wellFormed d = true) :
+    u8run .acc (writeDocs F docs) = .acc := by
+  induction docs with
+  | nil => rfl
+  | cons d ds ih =>
+    rw [writeDocs, show write F d ++ 0x0A :: writeDocs F ds = write F d ++ ([0x0A] ++ writeDocs F ds) by simp]
+    exact u8_append ((write_valid_all F).1 d (h d (by simp)))
+      (u8_append (by decide) (ih (fun x hx => h x (by simp [hx]))))
+
+theorem sliceLoop_writeDocs (F : ExtFloat) (docs : List JVal) (h : docsOk docs) :
+    sliceLoop (writeDocs F docs) = (docs, .ok) := by
+  unfold sliceLoop validUtf8
+  rw [writeDocs_valid F docs (fun d hd => (h d hd).1)]
+  simp [sliceDocs_writeDocs F docs h]
+
+/-! ## Slice loop vs reader loop -/
+
+theorem slice_reader_aux : ∀ (n : Nat) (bs : List Nat), bs.length ≤ n →
+    ((sliceDocs bs).1 <+: (readerLoop bs).1) ∧
+    (hasUnseparatedScalar bs = false → sliceDocs bs = readerLoop bs) := by
+  intro n
+  induction n with
+  | zero =>
+    intro bs hlen
+    have : bs = [] := by cases bs <;> simp_all
+    subst this
+    rw [sliceDocs_eq, readerLoop_eq]; simp [skipWs]
+  | succ n ih =>
+    intro bs hlen
+    rw [sliceDocs_eq, readerLoop_eq, hasUnseparatedScalar_eq]
+    have hsk := skipWs_length_le bs
+    cases hs : skipWs bs with
+    | nil => simp
+    | cons b r =>
+      simp only []
+      cases hp : parseValue depthLimit (b :: r) with
+      | error e => simp
+      | ok p =>
+        obtain ⟨v, rest⟩ := p
+        have hl := parseValue_length hp
+        rw [hs] at hsk
+        have hrest : rest.length ≤ n := by simp at hl hsk; omega
+        obtain ⟨ih1, ih2⟩ := ih rest hrest
+        simp only []
+        by_cases hc : (isSelfDelim b || endOk rest) = true
+        · simp only [hc, if_true]
+          refine ⟨?_, ?_⟩
+          · obtain ⟨t, ht⟩ := ih1
+            exact ⟨t, by simp [← ht]⟩
+          · intro hu
+            simp only [Bool.or_eq_false_iff] at hu
+            rw [ih2 hu.2]
+        · simp only [hc]
+          refine ⟨by simp, ?_⟩
+          intro hu
+          simp only [Bool.or_eq_false_iff, Bool.and_eq_false_iff, Bool.not_eq_false'] at hu
+          simp only [Bool.or_eq_true, not_or, Bool.not_eq_true] at hc
+          rcases hu.1 with h1 | h1
+          · rw [h1] at hc; simp at hc
+          · rw [h1] at hc; simp at hc
+
+
 end Xt.Json
